@@ -1,5 +1,6 @@
 import TTModel.C15_MCMC
 import TTGen.C15_Tuning
+import TTGen.C15_RunOrder
 import TTProofs.Lemmas.C15_Real
 import TTProofs.Lemmas.C15_Frame
 import Mathlib.Analysis.SpecialFunctions.Log.Basic
@@ -21,7 +22,43 @@ open TT TT.C15 TTGen.C15_Tuning
 /-- the translator recognised every getter / setter / `tune` -/
 theorem translator_recognised : translatorOk = true := by decide
 
-/-! ## the run loop -/
+/-! ## the run loop
+
+The theorems of this section are about `mcmcStep`.  That `mcmcStep` is `MCMC.run`'s loop body is tied
+(besides the tape correspondence) by a table REGENERATED from the AST of `MCMC.run` on every run
+(`TTGen/C15_RunOrder.lean`): the order of select / propose / decide / accept-or-restore / log / tune /
+counter / checkpoint, which iteration number the loggers and `tune` receive, and the exact statement
+shape of the decision block and of the accept/restore block.  A reordering in the source (logging before
+the restore, tuning before the decision, a different sample number, …) changes the table and the
+theorems below stop building. -/
+
+/-- the order translator recognised every statement of the loop body -/
+theorem run_order_recognised : TTGen.C15_RunOrder.translatorOk = true := by decide
+
+/-- **run_order_generated**: the phases of `MCMC.run` in source order are the phases `mcmcStep`
+implements, in the same order, with the same iteration number handed to loggers and to `tune` -/
+theorem run_order_generated :
+    TTGen.C15_RunOrder.order = stepOrder ∧ TTGen.C15_RunOrder.initial = initialOrder := by decide
+
+/-- the decision block and the accept/restore block have the statement shape the model mirrors -/
+theorem run_blocks_generated :
+    TTGen.C15_RunOrder.decideBlockOk = true ∧ TTGen.C15_RunOrder.acceptBlockOk = true := by decide
+
+/-- the iteration number the model hands to `logger.log` and to `operator.tune` is the counter before it
+advances (what `run_order_generated` reads off the source) -/
+theorem samples_are_epoch_before {α : Type} [Add α] [Sub α] [Mul α] [Div α] [Neg α] [Zero α] [One α]
+    [FromNat α] [Trans α] [LT α] [DecidableLT α] (env : Env α) (half : α) (m m' : Machine α)
+    (tape tape' : Tape α) (r : Rec α) (h : mcmcStep env half m tape = some (m', tape', r)) :
+    r.logSample = m.epoch ∧ r.tuneSample = m.epoch ∧ m'.epoch = m.epoch + 1 := by
+  unfold mcmcStep at h
+  split at h
+  · exact absurd h (by simp)
+  · split at h
+    · exact absurd h (by simp)
+    · simp only [Option.some.injEq, Prod.mk.injEq] at h
+      obtain ⟨hm, _, hr⟩ := h
+      subst hm; subst hr
+      exact ⟨rfl, rfl, rfl⟩
 
 /-- every operator's parameter indices point into the state -/
 def WF {α : Type} (m : Machine α) : Prop :=
@@ -50,7 +87,8 @@ theorem mcmcStep_eq (env : Env α) (half : α) (m : Machine α) (tape : Tape α)
        { opIdx := oi, proposed := pr.1, hr := pr.2.1, lpProposed := d.lpProposed,
          accProb := d.accProb, accepted := d.accepted, uUsed := d.uUsed,
          stateAfter := stateAfter, logJointAfter := logJointAfter,
-         logged := env.target stateAfter, scaleAfter := op2.scale }) := by
+         logged := env.target stateAfter, logSample := m.epoch, tuneSample := m.epoch,
+         scaleAfter := op2.scale }) := by
   simp only [mcmcStep, ht, hop]
 
 /-- **reject_restores**: after a rejected move every parameter of the run has exactly the value
